@@ -118,6 +118,8 @@ def cases(draw: T.Any) -> dict:
             osp['level'] = str(draw(st.sampled_from([7, 3, 11])))
         if draw(st.booleans()):
             osp['plain'] = draw(st.sampled_from(['sub default', 'given']))
+    # a custom target that is installed but not built by default (optional for the installer: installed when it has been built)
+    inst['optct'] = draw(st.booleans())
     return {'model': model, 'tests': tests, 'opts': opts, 'prefix': prefix, 'install': inst, 'build_subdir': bsd, 'osp': osp}
 
 
@@ -174,6 +176,9 @@ def extras(c: dict, logdir: str) -> T.Tuple[T.List[str], T.Dict[str, str]]:
         fn, _, loc = ent.partition('@')
         files[fn] = f'.TH {fn}\n'
         lines.append(f"install_man({q(fn)}" + (f", locale: {q(loc)}" if loc else '') + ')')
+    if ins.get('optct'):
+        lines.append("custom_target('optct', output: 'optct.txt', command: [dump, '@OUTPUT@'], build_by_default: false, install: true, "
+                     "install_dir: 'share/optct', install_tag: 'doc')")
     if ins['subdir']:
         sd, dest, tag, excl = ins['subdir']
         files[f'{sd.rstrip("/")}/f1.txt'] = 'f1\n'
@@ -317,6 +322,8 @@ def check_case(c: dict, workdir: str, ev: T.Optional[Evidence], sub: bool = Fals
                 want_names.append((t['name'], tmap[t['kind']]))
         if c.get('build_subdir'):
             want_names += [('bsd_prog', 'executable'), ('bsd_lib', 'static library'), ('bsd_gen', 'custom')]
+        if c['install'].get('optct'):
+            want_names.append(('optct', 'custom'))
         if sorted(want_names) != names:
             return Failure('targets/set-differs', c, f'intro-targets.json lists {names}, the build definition declares {sorted(want_names)}')
         # ---- buildoptions ---------------------------------------------------
